@@ -350,7 +350,11 @@ class Sim:
         # every 4th client of the process (or as the scenario says) runs with the library's logger at DEBUG and its debug flag on: the
         # debug-only branches (extra logging, but also control flow that differs, e.g. in the keep-alive sender) are code under test
         debug_ = rotation.decide("client_debug", (False, False, False, True)) if debug is None else rotation.record("client_debug_fixed", bool(debug))
-        logcfg.set_debug(bool(debug_))   # the logger level at construction decides the client's debug flag, as in production
+        # (with debug on, every other time one module of the package is kept at INFO: the package's loggers disagree about DEBUG)
+        quiet = ()
+        if debug_ and debug is None:
+            quiet = rotation.decide("quiet_module_under_debug", ((), ("aioesphomeapi.connection",), (), ("aioesphomeapi._frame_helper.base",)))
+        logcfg.set_debug(bool(debug_), tuple(quiet))   # the logger level at construction decides the client's debug flag, as in production
         if outside_loop:
             # the application builds its client in synchronous set-up code and only then starts the loop that runs the connection
             # (`client = APIClient(...)` followed by `asyncio.run(main())`): whatever loop is current at construction is NOT the one
@@ -370,6 +374,13 @@ class Sim:
         cli.set_debug(bool(debug_))
         if debug_:
             self.debug_clients += 1
+        # a display name the application knows the device by (it only ever appears in log lines and error texts): one client in four gets one
+        # with characters that are special to %-formatting, str.format and regular expressions
+        if rotation.decide("cached_display_name", ("none", "none", "special-characters", "none")) == "special-characters":
+            try:
+                cli.set_cached_name_if_unset("boiler 50% duty %s {0} (a|b) \\d")
+            except AttributeError:
+                pass
         return cli
 
     # ------------------------------------------------------------------ harness calls
